@@ -64,7 +64,7 @@ class ExprProp(Prop):
 
 
 class C06(ExprProp):
-    """Theorems (Props/C06.lean): for every well-formed expression and every admissible layout of blanks the parser model yields a tree that represents it (`C06_parse_render`, any length, nesting, calls), the evaluator returns its denotation (`C06_query`), layouts do not matter, parentheses work anywhere. Correspondence: all operator sequences up to five with every parenthesisation and layout (also with the `**` spelling of power), random deeper expressions; results and tree shapes compared. Full language (Props/FullQuery.lean): `C06_query_full` — two admissible layouts of the same expression of the FULL language (units, facts, casts, nested calls, percent, temperatures) give the same result and log."""
+    """Theorems (Props/C06.lean): for every well-formed expression and every admissible layout of blanks the parser model yields a tree that represents it (`C06_parse_render`, any length, nesting, calls), the evaluator returns its denotation (`C06_query`), layouts do not matter, parentheses work anywhere. Correspondence: all operator sequences up to five with every parenthesisation and layout (also with the `**` spelling of power), random deeper expressions; results and tree shapes compared. Full language (Props/FullQuery.lean): `C06_query_full` — two admissible layouts of the same expression of the FULL language (units, facts, casts, nested calls, percent, temperatures) give the same result and log. Layout oracle on the full language (vcheck/mixgen.py): every generated expression under several layouts of blanks must answer alike; blanks inside fact phrases; long chains of operands and calls."""
     id = "C06"
     needs_knobs = ("op",)
     module = "Anything.Props.C06"
